@@ -3,7 +3,7 @@ use std::collections::{HashSet, VecDeque};
 
 use crate::spec_util::validate_tag_path;
 use crate::tag_iterator_util::EBMLSize::Known;
-use crate::tag_iterator_util::{DEFAULT_BUFFER_LEN, EBMLSize, ProcessingTag, AllowableErrors};
+use crate::tag_iterator_util::{DEFAULT_BUFFER_LEN, MIN_BUFFER_LEN, EBMLSize, ProcessingTag, AllowableErrors};
 
 use super::tools;
 use super::specs::{EbmlSpecification, EbmlTag, Master, TagDataType, PathPart};
@@ -89,7 +89,8 @@ impl<R: Read, TSpec> TagIterator<R, TSpec>
     /// This initializes the [`TagIterator`] with a specific byte capacity.  The iterator will still reallocate if necessary. (Reallocation occurs if the iterator comes across a tag that should be output as a [`Master::Full`] and its size in bytes is greater than the iterator's current buffer capacity.)
     ///
     pub fn with_capacity(source: R, tags_to_buffer: &[TSpec], capacity: usize) -> Self {
-        let buffer = vec![0;capacity];
+        // The header look-ahead needs room for an 8 byte id and an 8 byte size
+        let buffer = vec![0;capacity.max(MIN_BUFFER_LEN)];
 
         TagIterator {
             source,
